@@ -10,67 +10,67 @@ var plans = map[string]plan{
 		Assumptions: []string{"go/types, gofmt and cmd/compile are correct", "supported set per plugin taken from plugin docs / Readme (DESIGN.md section 4)"},
 	},
 	"C02": {
-		Quick:       tierPlan{Shards: 16, Checks: 2, Shrink: "45s", Limit: 20 * time.Minute},
+		Quick:       tierPlan{Shards: 16, Checks: 4, Shrink: "45s", Limit: 20 * time.Minute},
 		Thorough:    tierPlan{Shards: 16, Checks: 40, Shrink: "3m", Limit: 3 * time.Hour},
 		Rule:        "outer case = generated subject package (14 argument types over the supported grammar, with equal / curried / 5 context wrappers each); inner cases = value pairs (independent, rebuilt at fresh addresses with permuted maps and different capacity, or exactly one leaf / nil-ness / length / key mutation) plus a third value for transitivity, judged against the reflection-based structural reference; non-trivial = rebuild or single-mutation pair whose value holds a non-nil pointer/slice/map; distinct by (type, encoding of a, encoding of b)",
 		Assumptions: []string{"vref.Eq is the statement of C02 (self-tested: equivalence, agrees with canonical encoding)", "user Equal methods generated for the subject are equivalence relations"},
 	},
 	"C03": {
-		Quick:       tierPlan{Shards: 16, Checks: 2, Shrink: "45s", Limit: 20 * time.Minute},
+		Quick:       tierPlan{Shards: 16, Checks: 4, Shrink: "45s", Limit: 20 * time.Minute},
 		Thorough:    tierPlan{Shards: 16, Checks: 40, Shrink: "3m", Limit: 3 * time.Hour},
 		Rule:        "outer case = generated subject package (14 types with compare / curried compare / equal); inner case = a pool of 4-6 values (a, rebuild of a, a chain of single mutations, an independent value): every ordered pair is one evaluation (range, antisymmetry, ==0 iff derived Equal iff structural equality, curried form) and every triple is checked for transitivity; direction asserted for single leaf / nil-ness mutations that Equal distinguishes; non-trivial = Compare==0 pair at distinct addresses, or a direction pair whose difference lies below the root; distinct by (type, encodings)",
 		Assumptions: []string{"vref reference (self-tested)", "no user Compare/Equal methods in C03 subjects (the statement does not speak about them)"},
 	},
 	"C04": {
-		Quick:       tierPlan{Shards: 16, Checks: 2, Shrink: "45s", Limit: 20 * time.Minute},
+		Quick:       tierPlan{Shards: 16, Checks: 4, Shrink: "45s", Limit: 20 * time.Minute},
 		Thorough:    tierPlan{Shards: 16, Checks: 40, Shrink: "3m", Limit: 3 * time.Hour},
 		Rule:        "outer case = generated subject package (14 types with hash and equal); inner case = a pair that is Equal by construction (rebuilt at fresh addresses with permuted map insertion, different capacity, un-shared pointers; or additionally +0/-0 rewritten) on which derived Equal and the structural reference agree; judged: same hash, repeatable, argument snapshot unchanged, and the same values re-hashed in a second process; non-trivial = the two members differ in capacity / sharing / zero sign or hold a map with >= 2 entries; distinct by (type, snapshots)",
 		Assumptions: []string{"vref reference (self-tested)", "the second process regenerates the same values from the same rapid seed (only values present in both runs are compared)"},
 	},
 	"C05": {
-		Quick:       tierPlan{Shards: 16, Checks: 2, Shrink: "45s", Limit: 20 * time.Minute},
+		Quick:       tierPlan{Shards: 16, Checks: 4, Shrink: "45s", Limit: 20 * time.Minute},
 		Thorough:    tierPlan{Shards: 16, Checks: 40, Shrink: "3m", Limit: 3 * time.Hour},
 		Rule:        "outer case = generated subject package (14 types, most wrapped in a top-level pointer/slice/map, with clone and deepcopy); inner case = source value (nil/empty/shared substructure) and an independently drawn tree-shaped prior destination (pointer to arbitrary contents / slice of equal length / empty map); judged: structural equality, source snapshot unchanged, allocation sets disjoint, scribbling one side leaves the other's snapshot unchanged; non-trivial = source reaches a non-nil pointer/slice/map below the root and the prior destination differs from it; distinct by (type, source snapshot, prior destination snapshot)",
 		Assumptions: []string{"vref reference, Addrs and Scribble (self-tested)", "string bytes and zero-size allocations are not counted as shared memory"},
 	},
 	"C13": {
-		Quick:       tierPlan{Shards: 16, Checks: 2, Shrink: "45s", Limit: 20 * time.Minute},
+		Quick:       tierPlan{Shards: 16, Checks: 4, Shrink: "45s", Limit: 20 * time.Minute},
 		Thorough:    tierPlan{Shards: 16, Checks: 40, Shrink: "3m", Limit: 3 * time.Hour},
 		Rule:        "outer case = generated subject package (14 element/key types with sort, keys, min/max list and two-value forms, compare, equal); inner case = one operation on a drawn list (nil, empty, 1-6 elements with identical and Equal-but-not-identical duplicates) or map; judged by permutation (multiset of bit-exact encodings, pointer identities), sortedness under derived Compare (natural < for basic types), exactly-once keys, membership + extremality of min/max, default on empty; non-trivial = list of >= 3 elements that is unsorted or has duplicates, map of >= 2 keys, any two-value call; distinct by (type, operation, encoding)",
 		Assumptions: []string{"vref reference (self-tested)", "derived Compare is judged by C03; here it is the order the statement refers to"},
 	},
 	"C14": {
-		Quick:       tierPlan{Shards: 16, Checks: 2, Shrink: "45s", Limit: 20 * time.Minute},
+		Quick:       tierPlan{Shards: 16, Checks: 4, Shrink: "45s", Limit: 20 * time.Minute},
 		Thorough:    tierPlan{Shards: 16, Checks: 40, Shrink: "3m", Limit: 3 * time.Hour},
 		Rule:        "outer case = generated subject package (14 element types, ==-comparable and not, with contains, unique, set, union/intersect on lists and maps, filter, takewhile, all, any, equal); inner case = one operation on drawn lists with duplicates / Equal-but-not-identical elements / nil elements and a logging predicate from a small family; judged against a list/set reference model parameterised by derived Equal (cross-checked with the structural reference) and the predicate call log; non-trivial = list of >= 3 elements with a duplicate pair; distinct by (type, operation, encoding)",
 		Assumptions: []string{"vref reference (self-tested)", "pairs on which derived Equal and the reference disagree are skipped here (C02 judges them)"},
 	},
 	"C17": {
-		Quick:       tierPlan{Shards: 16, Checks: 2, Shrink: "45s", Limit: 20 * time.Minute},
+		Quick:       tierPlan{Shards: 16, Checks: 4, Shrink: "45s", Limit: 20 * time.Minute},
 		Thorough:    tierPlan{Shards: 16, Checks: 40, Shrink: "3m", Limit: 3 * time.Hour},
 		Rule:        "outer case = generated subject package (14 element/result types with fmap over slices (two result types), fmap over strings, join of slices, join of strings); inner case = one call with a scripted, logging f on slices of length 0-6 (nil vs empty), slices of slices with nil/empty inner lists, strings over ASCII, 2-4 byte runes and invalid UTF-8; judged against map over the elements / []rune(s) and concatenation, call log in order, inputs unmodified; non-trivial = string whose byte length differs from its rune count, or slice of slices with an empty and a non-empty inner list, or fmap over >= 2 elements; distinct by input encoding",
 		Assumptions: []string{"vref encoder (self-tested)"},
 	},
 	"C15": {
-		Quick:       tierPlan{Shards: 16, Checks: 2, Shrink: "45s", Limit: 20 * time.Minute},
+		Quick:       tierPlan{Shards: 16, Checks: 4, Shrink: "45s", Limit: 20 * time.Minute},
 		Thorough:    tierPlan{Shards: 16, Checks: 40, Shrink: "3m", Limit: 3 * time.Hour},
 		Rule:        "outer case = generated subject package: 14 non-variadic signatures with 2-5 parameters of mixed types (incl. error / interface{}), named / blank / unnamed / generator-hostile parameter names (f, g, err, param_0, v0 ...), 0-3 results, each wrapped by curry, flip, apply, uncurry, uncurry-of-curry and tuple; inner case = drawn arguments and scripted results through an instrumented f: exactly one call, every argument in its position (identity for pointers/slices/maps), results unchanged; non-trivial = signature with >= 3 parameters of >= 2 distinct types; distinct by (signature, operation, arguments)",
 		Assumptions: []string{"reflect.MakeFunc stubs observe exactly the calls made through the function value"},
 	},
 	"C16": {
-		Quick:       tierPlan{Shards: 16, Checks: 2, Shrink: "45s", Limit: 20 * time.Minute},
+		Quick:       tierPlan{Shards: 16, Checks: 4, Shrink: "45s", Limit: 20 * time.Minute},
 		Thorough:    tierPlan{Shards: 16, Checks: 40, Shrink: "3m", Limit: 3 * time.Hour},
 		Rule:        "outer case = generated subject package with 16 error-propagating forms: compose chains of 2-4 stages with 0-3 intermediate/final results over basic, named basic, struct, array, pointer, slice, map and interface types; the error forms of fmap (0, 1, >=2 results) and join; traverse; toerror; inner case = drawn arguments, scripted stage results, a drawn failing stage / index (or none) with a distinct error value per stage; judged by the call log (left to right, at most once, none after the failure, exactly the previous results by identity), error identity, zero values on failure, pass-through on success; non-trivial = >= 3 stages or >= 2 results with the failure not at the first stage (and the analogous rule per form); distinct by (form, signature, arguments, failing position)",
 		Assumptions: []string{"reflect.MakeFunc stubs observe exactly the calls made"},
 	},
 	"C18": {
-		Quick:       tierPlan{Shards: 16, Checks: 2, Shrink: "45s", Limit: 20 * time.Minute},
+		Quick:       tierPlan{Shards: 16, Checks: 4, Shrink: "45s", Limit: 20 * time.Minute},
 		Thorough:    tierPlan{Shards: 16, Checks: 40, Shrink: "3m", Limit: 3 * time.Hour},
 		Rule:        "outer case = generated subject package with 14 signatures (0-3 parameters, 0-3 results over ==-comparable and non-comparable types incl. pointers, slices, maps, interfaces) wrapped by deriveMem; inner case = a call sequence of 4-24 steps against one memoised function: fresh arguments, an identical earlier tuple, an Equal-but-not-identical rebuild, a hash-colliding tuple (Aa/BB swap); every step is one evaluation; judged: results are exactly f's for the class, f's call count never exceeds the number of distinct classes (class = canonical structural encoding, +-0 identified), zero-argument form runs f once; non-trivial = sequence containing an Equal-but-not-identical repeat; distinct by (signature, sequence)",
 		Assumptions: []string{"f is made deterministic per argument class by a result table keyed by the canonical encoding", "vref encoder (self-tested)"},
 	},
 	"C06": {
-		Quick:       tierPlan{Shards: 6, Checks: 1, Shrink: "1s", Limit: 20 * time.Minute},
+		Quick:       tierPlan{Shards: 16, Checks: 1, Shrink: "1s", Limit: 20 * time.Minute},
 		Thorough:    tierPlan{Shards: 16, Checks: 4, Shrink: "1s", Limit: 3 * time.Hour},
 		Rule:        "outer case = generated library package (14 exported-field types incl. imported structs, struct-keyed maps, pointer chains); inner case = a drawn value (finite floats, hostile strings, extreme integers, nil/empty containers) whose deriveGoString text is written into a second-stage package of the same module; stage 2 must compile (errors mapped back to cases by line) and every expression must evaluate to a value with the same canonical structural encoding (nil vs empty, pointer targets); non-trivial = every compiled-and-evaluated expression of a value holding a non-nil container or a non-empty string; distinct by (type, encoding)",
 		Assumptions: []string{"cmd/compile as the judge of 'is a Go expression'", "vref.Key equality is structural equality (self-tested)"},
